@@ -48,6 +48,8 @@ func main() {
 		switch os.Args[1] {
 		case "verify":
 			code = cmdVerify(repo, root, os.Args[2:])
+		case "check":
+			code = cmdCheck(repo, root, os.Args[2:])
 		case "theory":
 			code = cmdTheory(root, os.Args[2:])
 		default:
